@@ -279,7 +279,7 @@ def decide(prop, tier, seed, work, evid_path, a, t_start):
         solver_s += r.get('solver_s', 0.0)
         rec = {'harness': hb.name, 'entry': e['name'], 'what': e.get('what', ''), 'unwind': e.get('unwind', 8),
                'status': r['status'], 'wall_s': r['wall_s'], 'solver_s': round(r.get('solver_s', 0.0), 3),
-               'sat_vars': r.get('sat_vars'), 'sat_clauses': r.get('sat_clauses'), 'bounds': e.get('bounds', ''),
+               'sat_vars': r.get('sat_vars'), 'sat_clauses': r.get('sat_clauses'), 'sat_calls': r.get('sat_calls'), 'bounds': e.get('bounds', ''),
                'cbmc_properties': len(r['props'])}
         per_harness.append(rec)
         if r['status'] in ('timeout', 'error'):
